@@ -905,7 +905,6 @@ func (d *decoder) parseTimeStamp(dm *defmsg, fieldv reflect.Value, pfield *field
 	case d.timestamp == 0, d.timestamp < systemTimeMarker:
 		// No time reference.
 		// Set local with zero offset.
-		d.timestamp = u32
 		tzone := time.FixedZone(localZoneName, 0)
 		local = decodeDateTime(u32)
 		local = local.In(tzone)
